@@ -137,6 +137,41 @@ fn names_stable(st: &mut ServerState) -> String {
   }
 }
 
+/// The STORED dependency graph (hook `ServerState::verif_dep_graph_edges`): `#graph=<m>><imp>,<imp>;...` for the
+/// forward map, or `#graph=BADREV:…` if the reverse map is not the inverse of the forward map.
+fn graph_dump(st: &ServerState) -> String {
+  let (fwd, rev) = st.verif_dep_graph_edges();
+  let mut f: Vec<(String, Vec<String>)> = fwd
+    .iter()
+    .map(|(m, es)| {
+      let mut v: Vec<String> = es.iter().map(|e| name_of(&st.heap, e)).collect();
+      v.sort();
+      (name_of(&st.heap, m), v)
+    })
+    .collect();
+  f.sort();
+  let mut inv: BTreeSet<(String, String)> = BTreeSet::new();
+  for (m, es) in &f {
+    for e in es {
+      inv.insert((e.clone(), m.clone()));
+    }
+  }
+  let mut r: BTreeSet<(String, String)> = BTreeSet::new();
+  for (x, ms) in &rev {
+    for m in ms {
+      r.insert((name_of(&st.heap, x), name_of(&st.heap, m)));
+    }
+  }
+  if r != inv {
+    return format!("#graph=BADREV:{}", r.symmetric_difference(&inv).count());
+  }
+  let body: Vec<String> = f
+    .iter()
+    .map(|(m, es)| format!("{}>{}", m, if es.is_empty() { "-".to_string() } else { es.join(",") }))
+    .collect();
+  format!("#graph={}", if body.is_empty() { "-".to_string() } else { body.join(";") })
+}
+
 fn observe(st: &ServerState, names: &BTreeSet<String>, verbose: bool) -> String {
   let mut present: HashMap<String, ModuleReference> = HashMap::new();
   for m in st.all_modules() {
@@ -241,8 +276,9 @@ fn main() {
               let o = observe(&st, &sess.names, verbose);
               let ns = catch_unwind(AssertUnwindSafe(|| names_stable(&mut st)))
                 .unwrap_or_else(|_| "#names=BAD:0:panic".to_string());
+              let g = graph_dump(&st);
               sess.state = Some(st);
-              format!("{o} {ns}")
+              format!("{o} {ns} {g}")
             } else {
               let mut ns = sess.names.clone();
               ns.extend(names);
@@ -294,7 +330,7 @@ fn main() {
         match r {
           Ok(_) => catch_unwind(AssertUnwindSafe(|| {
             let o = observe(st, names, verbose);
-            format!("{o} {}", names_stable(st))
+            format!("{o} {} {}", names_stable(st), graph_dump(st))
           }))
           .unwrap_or_else(|e| format!("panic:{}", hex(panic_msg(&e).as_bytes()))),
           Err(e) => {
